@@ -70,8 +70,9 @@ def benchmark_random(backtest, random_strategy, nsim=100):
 
     # create and run random backtests
     for i in tqdm(range(nsim)):
-        random_strategy.name = "random_%s" % i
-        rbt = bt.Backtest(random_strategy, data)
+        # name the backtest, not the caller's template (the strategy passed
+        # in is left as it was)
+        rbt = bt.Backtest(random_strategy, data, name="random_%s" % i)
         rbt.run()
 
         bts.append(rbt)
